@@ -2,7 +2,7 @@
 # usage: mkseedprompts.py <round>  — creates a scratch worktree per property under /tmp and writes the sub-agent prompt
 # (property text only + workspace instructions + one-line summaries of earlier changes to avoid) to /tmp/prompts/.
 import json,glob,os,subprocess,sys
-R=int(sys.argv[1])
+R=int(sys.argv[1]); ONLY=sys.argv[2:]
 os.chdir('/verif')
 os.makedirs('/tmp/prompts',exist_ok=True)
 props={}
@@ -10,6 +10,7 @@ for l in open('properties.jsonl'):
     p=json.loads(l); props[p['id']]=p
 TEMPLATE=open('/verif/tools/seedprompt.tmpl').read()
 for pid,p in props.items():
+    if ONLY and pid not in ONLY: continue
     wt=f'/tmp/s{R}-{pid}-wt'; out=f'/tmp/seed{R}-{pid}-out'
     if not os.path.exists(wt):
         subprocess.run(['git','-C','/repo','worktree','add','-q','--detach',wt,'HEAD'],check=True)
